@@ -13,8 +13,10 @@ res = {"tag": tag, "diff": diff}
 sh("git -C /repo worktree remove --force %s" % wt)
 rc, out = sh("git -C /repo worktree add --detach %s HEAD" % wt)
 try:
-    shutil.copy(demo, os.path.join(wt, "_demo.py"))
-    runner = "%s _demo.py" % PY if "def test_" not in open(demo).read() or "__main__" in open(demo).read() else "%s -m pytest -q -p no:cacheprovider _demo.py" % PY
+    os.makedirs(os.path.join(wt, "_seed"), exist_ok=True)
+    dn = os.path.join("_seed", os.path.basename(demo))
+    shutil.copy(demo, os.path.join(wt, dn))
+    runner = "%s %s" % (PY, dn) if "def test_" not in open(demo).read() or "__main__" in open(demo).read() else "%s -m pytest -q -p no:cacheprovider %s" % (PY, dn)
     rc0, o0 = sh(runner, cwd=wt, timeout=300)
     res["demo_clean_rc"] = rc0
     rca, oa = sh("git apply %s" % os.path.abspath(diff), cwd=wt)
@@ -55,6 +57,16 @@ try:
                     break
             if not okr:
                 still.append(tid)
+        if still:
+            # order-dependent tests (they need modules imported by earlier tests) cannot be judged alone: run the whole suite once more
+            rcs2, _ = sh("%s -m pytest -q -p no:cacheprovider --timeout=900 --continue-on-collection-errors --junitxml=%s/_junit2.xml" % (PY, wt), cwd=wt, timeout=1400)
+            failed2 = set()
+            for tc in ET.parse("%s/_junit2.xml" % wt).getroot().iter("testcase"):
+                tid = (tc.get("classname") or "") + "::" + (tc.get("name") or "")
+                if tc.find("failure") is not None or tc.find("error") is not None:
+                    failed2.add(tid)
+            still = [t for t in still if t in failed2]
+            res["second_full_run_failed"] = len(failed2)
         res["new_failures_first_run"] = newf[:10]
         res["new_failures"] = still
         res["stable_pass_missing"] = len([t for t in missing if t in still])
